@@ -46,4 +46,14 @@ ResultReachable == Done => Reach(D) = Qd
 ResultEquivalent == Done => FaEquiv(N, D)
 FinalsRight == \A X \in Qd : (X \in Fd) <=> (X \cap N.F # {})
 Bounded == Cardinality(Qd) <= 2 ^ Cardinality(Q)
+(* C13 inside the specification: the construction's own result satisfies the criterion of the     *)
+(* NFA->DFA exercise checker (labels = the subsets themselves)                                    *)
+OwnAnswerPassesNfa2DfaChecker ==
+  Done => /\ Qd # {} /\ D.S = N.S
+          /\ \A X \in Qd : X \subseteq N.Q
+          /\ D.q0 = EClosure(N, {N.q0})
+          /\ \A X \in Qd : (X \in Fd) <=> (X \cap N.F # {})
+          /\ \A X \in Qd : \A a \in S :
+                LET tg == {t[3] : t \in {t \in deltad : t[1] = X /\ t[2] = a}}
+                IN Cardinality(tg) = 1 /\ \A Y \in tg : Y = Step(N, X, a)
 =============================================================================
